@@ -1207,19 +1207,23 @@ QXmppTask<IqResult> OutgoingIqManager::start(const QString &id, const QString &t
 void OutgoingIqManager::finish(const QString &id, IqResult &&result)
 {
     if (auto itr = m_requests.find(id); itr != m_requests.end()) {
-        itr->second.interface.finish(std::move(result));
+        // remove the request first: the continuation may start new requests or cancel all
+        auto state = std::move(itr->second);
         m_requests.erase(itr);
+        state.interface.finish(std::move(result));
     }
 }
 
 void OutgoingIqManager::cancelAll()
 {
-    for (auto &[id, state] : m_requests) {
+    // continuations may start new requests or cancel again: work on a detached table
+    auto requests = std::move(m_requests);
+    m_requests.clear();
+    for (auto &[id, state] : requests) {
         state.interface.finish(QXmppError {
             u"IQ has been cancelled."_s,
             QXmpp::SendError::Disconnected });
     }
-    m_requests.clear();
 }
 
 void OutgoingIqManager::onSessionOpened(const SessionBegin &session)
@@ -1256,7 +1260,6 @@ bool OutgoingIqManager::handleStanza(const QDomElement &stanza)
         return false;
     }
 
-    auto &promise = itr->second.interface;
     const auto &expectedFrom = itr->second.jid;
 
     // Check that the sender of the response matches the recipient of the request.
@@ -1269,6 +1272,11 @@ bool OutgoingIqManager::handleStanza(const QDomElement &stanza)
                     .arg(id, from, expectedFrom));
         return false;
     }
+
+    // remove the request before completing it: the continuation may start new requests or
+    // close the session (which cancels all requests)
+    auto promise = std::move(itr->second.interface);
+    m_requests.erase(itr);
 
     // report IQ errors as QXmppError (this makes it impossible to parse the full error IQ,
     // but that is okay for now)
@@ -1288,7 +1296,6 @@ bool OutgoingIqManager::handleStanza(const QDomElement &stanza)
         promise.finish(stanza);
     }
 
-    m_requests.erase(itr);
     return true;
 }
 
